@@ -253,6 +253,15 @@ class EncodeState:
 
             raw_value = float(internal_value)
 
+            # finite values which exceed the range of single precision
+            # numbers would silently become infinite (or make the pure
+            # python version of bitstruct raise an OverflowError)
+            if base_data_type == DataType.A_FLOAT32 and \
+               3.4028235677973366e+38 <= abs(raw_value) < float("inf"):
+                odxraise(
+                    f"The value '{internal_value!r}' cannot be represented by "
+                    f"a FLOAT32 object", EncodeError)
+
         # If the bit length is zero, encode an empty value
         if bit_length == 0:
             self.emplace_bytes(b'')
